@@ -343,7 +343,11 @@ def session_corpus():
             ["query", ds, 'STARTTIME = 5; ENDTIME = "never"; nop = 3; RETURN = 1;', v], bq(ds, BUCKET_SHAPES[0], "w%d-x" % k),
             bq(ds, BUCKET_SHAPES[1], "w%d-x" % k), ["query", ds, "RETURN = nop();", v],
             ["query", ds, 'true = "s"; RETURN = true;', v], ["query", ds, "RETURN = limit_events([1], true);", v],
-            ["delete", ds, "w%d-x" % k]]
+            ["delete", ds, "w%d-x" % k],
+            # the predefined names are the asked query's own name and period, also after a query that failed
+            ["query", ds, "RETURN = echo([NAME, STARTTIME, ENDTIME], nope);", {"class": "InterpretError"}, ["n-one", -12 * HOUR, 100 * MINUTE]],
+            ["query", ds, "RETURN = echo([NAME, STARTTIME, ENDTIME], 1);", v, ["n-two", 30 * MINUTE, 3 * HOUR]],
+            ["query", ds, "RETURN = echo([NAME, STARTTIME, ENDTIME], 1);", v], ["query", ds, "RETURN = [NAME, STARTTIME, ENDTIME];", v, ["", 0, 1]]]
     # a bucket named by two shapes in one text while only one of two buckets exists
     for s1 in BUCKET_SHAPES:
         k += 1
@@ -527,7 +531,12 @@ def main(argv=None):
     def run_session(stream, ops, through_model=True):
         sess = Session(impl)
         for i, op in enumerate(ops):
-            out = sess.apply(op)
+            try:
+                out = sess.apply(op)
+            except Exception as e:      # the datastore layer itself refuses a create / delete: not this property's claim,
+                ck.disagreement("session", f"op {op[:3]!r} of a session raised {type(e).__name__}: {e}",      # but no tie either
+                                {"session": ops[:i + 1], "stream": stream})
+                return
             if out is None:
                 ck.count("session-op:" + op[0])
                 continue
@@ -554,7 +563,8 @@ def main(argv=None):
     for ops, through_model in large_stream():
         run_session("large", ops, through_model)
     if impl.buckets_of(impl.ds) != impl.buckets or sorted(impl.ds.buckets()) != impl.buckets:
-        raise HarnessBroken("a session did not leave the first datastore as it found it")
+        ck.disagreement("session", "the sessions did not leave the first datastore as they found it: "
+                        f"{sorted(impl.ds.buckets())} / {impl.buckets}", {"buckets": sorted(impl.ds.buckets())})
 
     if have_driver and wire:
         model = common.run_driver("C17", wire)
